@@ -284,6 +284,12 @@ func reasonKey(c *Rec) string {
 
 // Handle is the worker-side entry point.
 func Handle(in []byte) any {
+	var kind struct {
+		Kind string `json:"kind"`
+	}
+	if json.Unmarshal(in, &kind) == nil && kind.Kind == "magnet" {
+		return handleMagnet(in)
+	}
 	var c Case
 	if err := json.Unmarshal(in, &c); err != nil {
 		return &Obs{Note: "bad case: " + err.Error()}
